@@ -19,7 +19,7 @@ META = {
         "radial (off-sphere) derivative of the 7-column SE(3) Jacobians is not judged (documentation leaves the extension open)",
         "SE(2) angle components are unwrapped and quaternion blocks sign-aligned before differencing",
     ],
-    "required_classes": ["binary:SE2", "binary:SE3", "binary:R2", "binary:R3", "point:SE2", "point:SE3", "unary:SE3", "unary:SE2", "w_negative", "w_zero", "angle_seam"],
+    "required_classes": ["map_scale_coordinates", "binary:SE2", "binary:SE3", "binary:R2", "binary:R3", "point:SE2", "point:SE3", "unary:SE3", "unary:SE2", "w_negative", "w_zero", "angle_seam"],
     "bounds": {"quick": "quick pose alphabets squared", "thorough": "thorough pose alphabets squared (SE3 259^2, SE2 175^2)"},
 }
 
@@ -43,6 +43,7 @@ def chunks(tier, seed):
             out.append(("binary", kind, i))
         out.append(("point", kind, 0))
         out.append(("unary", kind, 0))
+        out.append(("far", kind, 0))
     return out
 
 
@@ -84,6 +85,19 @@ def run_chunk(chunk, tier, seed):
     if typ == "binary":
         for b in ps:
             _do(acc, {"t": "binary", "kind": kind, "a": ps[i], "b": b})
+    elif typ == "far":
+        # poses at map-scale coordinates (1e6): analytic Jacobians keep ~1e-16 relative accuracy there, so the comparison is made
+        # at 1e-11 x scale (the 5-point oracle is good to ~1e-13 x scale); anything that differences positions is not
+        d = G.DIM[kind]
+        far = [1.0e6, -2.0e6, 5.0e5][:d]
+        rots = [p[d:] for p in ps[:: max(1, len(ps) // 5)]][:5]
+        n = 2 if kind in ("R2", "SE2") else 3
+        for ra in rots:
+            for rb in rots[:3]:
+                _do(acc, {"t": "binary", "kind": kind, "a": far + list(ra), "b": [0.7, -1.3, 2.1][:d] + list(rb), "far": True})
+                _do(acc, {"t": "binary", "kind": kind, "a": [0.7, -1.3, 2.1][:d] + list(ra), "b": far + list(rb), "far": True})
+            _do(acc, {"t": "point", "kind": kind, "a": far + list(ra), "p": [3.0, -4.0, 5.0][:n], "far": True})
+            _do(acc, {"t": "unary", "kind": kind, "a": far + list(ra), "far": True})
     elif typ == "point":
         n = 2 if kind in ("R2", "SE2") else 3
         for a in ps:
@@ -102,6 +116,8 @@ def _do(acc, case):
     acc.traces += 1
     kind = case["kind"]
     acc.cls("%s:%s" % (case["t"], kind))
+    if case.get("far"):
+        acc.cls("map_scale_coordinates")
     for key in ("a", "b"):
         c = case.get(key)
         if c is None:
@@ -171,6 +187,7 @@ class _Ck:
         self.nontriv = False
         self.nops = 0
         self.sc = sc
+        self.tol = TOL
 
     def shape(self, name, J, want):
         self.nops += 1
@@ -188,10 +205,10 @@ class _Ck:
     def vec(self, what, got, exp):
         self.nops += 1
         d = float(np.max(np.abs(np.asarray(got) - np.asarray(exp))))
-        r = d / (TOL * self.sc)
+        r = d / (self.tol * self.sc)
         self.ratio = max(self.ratio, r)
         if not r <= 1.0:
-            self.msgs.append("%s: Jacobian gives %r, 5-point derivative %r (|diff| %.3g > %.3g)" % (what, [float(x) for x in np.asarray(got).ravel()], [float(x) for x in np.asarray(exp).ravel()], d, TOL * self.sc))
+            self.msgs.append("%s: Jacobian gives %r, 5-point derivative %r (|diff| %.3g > %.3g)" % (what, [float(x) for x in np.asarray(got).ravel()], [float(x) for x in np.asarray(exp).ravel()], d, self.tol * self.sc))
 
 
 def _eval(case):
@@ -231,6 +248,8 @@ def _eval_inner(case):
         b_st = I.comps(b)
         sc += sum(abs(x) for x in b_st[: G.DIM[kind]])
         ck = _Ck(sc)
+        if case.get("far"):
+            ck.tol = 1e-11
         full = {}
         for name, opn, wrt, compact in BINARY:
             J = np.asarray(getattr(a, name)(b), dtype=float)
@@ -304,6 +323,25 @@ def _eval_inner(case):
             if J2.shape != keep.shape or not np.array_equal(J2, keep):
                 ck.msgs.append("%s: editing a returned matrix in place changes what later calls return (shared result object)" % name)
         _held(ck, kind, [(name, getattr(a, name)(b)) for name, _, _, _ in BINARY])
+        # operands that went through the standard library's copy / pickle are the same poses
+        import copy as _copy
+        import pickle as _pickle
+
+        for how, mk in (("pickle round trip", lambda x: _pickle.loads(_pickle.dumps(x))), ("copy.deepcopy", _copy.deepcopy), ("copy.copy", _copy.copy)):
+            try:
+                a2, b2 = mk(a), mk(b)
+            except Exception as ex:
+                ck.msgs.append("%s of a pose raised %s" % (how, type(ex).__name__))
+                continue
+            for name, _, _, _ in BINARY:
+                J0 = np.asarray(getattr(a, name)(b), dtype=float)
+                J1 = np.asarray(getattr(a2, name)(b2), dtype=float)
+                ck.nops += 1
+                if J1.shape != J0.shape or not np.array_equal(J0, J1):
+                    ck.msgs.append("%s gives another matrix for operands obtained by %s" % (name, how))
+            for name in ("jacobian_boxplus", "jacobian_inverse"):
+                if not np.array_equal(np.asarray(getattr(a, name)(), dtype=float), np.asarray(getattr(a2, name)(), dtype=float)):
+                    ck.msgs.append("%s gives another matrix for a pose obtained by %s" % (name, how))
         # the documented parameter name works as a keyword and gives the same matrix
         for name, _, _, _ in BINARY:
             Jp = np.asarray(getattr(a, name)(b), dtype=float)
@@ -322,6 +360,8 @@ def _eval_inner(case):
         pd = len(case["p"])
         sc += sum(abs(x) for x in case["p"])
         ck = _Ck(sc)
+        if case.get("far"):
+            ck.tol = 1e-11
         J1 = np.asarray(a.jacobian_self_oplus_point_wrt_self(p), dtype=float)
         if ck.shape("jacobian_self_oplus_point_wrt_self", J1, (pd, amb)):
             Jb = np.asarray(a.jacobian_boxplus(), dtype=float)
@@ -374,6 +414,8 @@ def _eval_inner(case):
         return ck.msgs, ck.ratio, ck.nontriv, ck.nops
     # unary
     ck = _Ck(sc)
+    if case.get("far"):
+        ck.tol = 1e-11
     for name in ("jacobian_boxplus", "jacobian_inverse"):
         J1 = getattr(a, name)()
         keep = np.array(J1, dtype=float, copy=True)
